@@ -25,7 +25,15 @@ def main(argv):
         if tier not in ("quick", "thorough"):
             tier = os.environ.get("VERIF_TIER", "quick")
         rep = Report(pid, tier)
-        mod.run(rep, tier)
+        try:
+            mod.run(rep, tier)
+        except MachineryError as e:
+            # a witnessed violation takes priority over vacuity guards and later machinery problems
+            if rep.violations:
+                print("NOTE property=%s: the run also hit a machinery/vacuity guard after violations were found: %s" % (pid, str(e)[:300]))
+                rep.notes["machinery_note"] = str(e)[:500]
+                return rep.finish()
+            raise
         return rep.finish()
     except MachineryError as e:
         print("MACHINERY-ERROR property=%s: %s" % (pid, e))
